@@ -675,8 +675,26 @@ class LoopMachine(Machine):
                 if c2 is not None:
                     vals.append((oid.split('.', 1)[-1], c2[1]))
             s2.tags['lv:' + lid] = tuple(vals)
+        # every scalar local the body writes that is not a loop counter (flags and match counters alike): (name, value on
+        # leaving the loop), for rules that recognise a scan by what its accumulator says afterwards
+        acc_cells = [(oid, key) for (oid, key), (n, ty, _) in written_cells.items()
+                     if n in (1, 2, 4, 8) and oid.startswith('L:') and not key[0] and oid not in smashed and (oid, key) not in (induct or {})]
+
+        def tag_accumulators(s2):
+            if not getattr(self, 'keep_iter_states', False):
+                return
+            vals = []
+            for oid, key in sorted(acc_cells):
+                o2 = s2.objs.get(oid)
+                c2 = o2.cells.get(key) if o2 is not None else None
+                if c2 is not None and c2[1][0] not in ('ptr', 'pset', 'fn'):
+                    vals.append((oid, c2[1]))
+            if vals:
+                s2.tags = dict(s2.tags)
+                s2.tags['lw:' + lid] = tuple(vals)
         for s2 in exitf + brk + [x for x, _ in ret]:
             tag_flags(s2)
+            tag_accumulators(s2)
         outs = []
         if len(exitf) > 1:
             # keep the reason for leaving the loop (which conjunct of the condition failed) distinguishable
